@@ -32,12 +32,12 @@ SPEC = {
     "id": "C17",
     "coq_props": ["Properties/C17.v", "Properties/C17conc.v", "Corr/C17.v"],
     "module": "MS.Properties.C17 MS.Properties.C17conc",
-    "theorems": ["C17_seq_K1", "C17_seq_K2", "C17conc_all_schedules_K"],
+    "theorems": ["C17_seq_K1", "C17_seq_K2", "C17_seq_K3", "C17conc_all_schedules_K"],
     "corr_require": "Require Import MS.Corr.C17.",
     "agrees": "C17.agrees",
     "in_domain": "C17.in_domain",
     "model_prop": "fun k => implb (C17.in_domain k) (C17.model_consistent k)",
-    "n_quick": 80,
+    "n_quick": 45,
     "n_thorough": 4000,
     "shard": 20,
     "rule": "see harness/props/c17.go: 4-12 requests over {A,B} x {1Min,5Min} x {G,H} x years {2021,2022,2023,current}: create, write of 1-3 rows "
